@@ -61,10 +61,22 @@ def build(reg):
     def m_find_word(eng, st, node, args, kwargs):
         d = eng.decls
         ln, a, b = d.fresh("fw_line", smt.INT), d.fresh("fw_start", smt.INT), d.fresh("fw_end", smt.INT)
-        # find_word_in_code_line: (line, Range(-1, -1 + len)) when not found, else an occurrence
-        st.assume(Or(Lt(a, IntVal(0)), And(Le(IntVal(0), a), Le(a, b))))
+        # find_word_in_code_line: (line, Range(-1, -1 + len)) when not found, else an occurrence *in the text it
+        # searched*: the buffer (contents_split) by default, the macro-expanded text with pp_content=True
+        pp = kwargs.get("pp_content")
+        searched_pp = pp is not None and not (isinstance(pp, V) and pp.t.s == "false")
+        length = d.fun("pp_line_len" if searched_pp else "raw_line_len", [smt.INT], smt.INT)(ln)
+        st.assume(Or(Lt(a, IntVal(0)), And(Le(IntVal(0), a), Le(a, b), Le(b, length))))
         st.assume(Ge(ln, IntVal(0)))
+        st.assume(Ge(length, IntVal(0)))
         return TupV([V(INT, ln), TupV([V(INT, a), V(INT, b)])])
+
+    def sp_raw_line_len(eng, st, ln):
+        f = eng.decls.fun("raw_line_len", [smt.INT], smt.INT)(ln.t)
+        eng.decls.ground_axiom("raw_len.nonneg", Ge(f, IntVal(0))) if "q_" not in f.s else None
+        return V(INT, f)
+
+    SPEC_ENV["raw_line_len"] = sp_raw_line_len
 
     reg.add(Contract(
         f"{LS}._create_ref_link", prop="C09", receiver_cls="LangServer", params={"obj": TObj("FortranObj")},
@@ -72,7 +84,8 @@ def build(reg):
                 "obj.file_ast.file.path": STR, "obj.sline": INT, "obj.name": STR},
         ensures=[("nonneg", "result['range']['start']['character'] >= 0 and result['range']['end']['character'] >= 0"),
                  ("ordered", "result['range']['start']['character'] <= result['range']['end']['character']"),
-                 ("one_line", "result['range']['start']['line'] == result['range']['end']['line']")],
+                 ("one_line", "result['range']['start']['line'] == result['range']['end']['line']"),
+                 ("in_document_line", "result['range']['end']['character'] <= raw_line_len(result['range']['end']['line'])")],
         calls={"obj_file.find_word_in_code_line": m_find_word, "path_to_uri": FrameCall(result=STR),
                "uri_json": "inline:fortls.json_templates.uri_json", "range_json": "inline:fortls.json_templates.range_json"},
         short="LangServer._create_ref_link"))
